@@ -9,6 +9,7 @@ import (
 	"math"
 	"os"
 	"path/filepath"
+	"sort"
 	"strings"
 
 	"github.com/advancedclimatesystems/gonnx"
@@ -480,6 +481,48 @@ func c18OtherLoaders(c *Ctx, b []byte, ref mon.Outcome) {
 		}
 	}
 	check("NewModelFromFile", func() (*gonnx.Model, error) { return gonnx.NewModelFromFile(path) })
+	// the file is replaced by other content of the same size (a retrained model, a damaged copy):
+	// the path is loaded again and must give what the bytes it holds NOW give
+	if len(b) > 8 {
+		b2 := append([]byte{}, b...)
+		b2[len(b2)-1-c.R.Intn(len(b2)/4+1)] ^= byte(1 << uint(c.R.Intn(8)))
+		fpOf := func(m *gonnx.Model) uint64 {
+			h := uint64(1469598103934665603)
+			if m == nil {
+				return h
+			}
+			params := m.VerifParameters()
+			names := make([]string, 0, len(params))
+			for n := range params {
+				names = append(names, n)
+			}
+			sort.Strings(names)
+			for _, n := range names {
+				h = (h ^ gen.HashStr(n)) * 1099511628211
+				h = (h ^ mon.Fp(params[n]).Hash) * 1099511628211
+			}
+			return h
+		}
+		var mb, mf *gonnx.Model
+		ob := mon.Capture(nil, func() ([]tensor.Tensor, error) { var err error; mb, err = gonnx.NewModelFromBytes(b2); return nil, err })
+		if os.WriteFile(path, b2, 0o644) == nil {
+			of := mon.Capture(nil, func() ([]tensor.Tensor, error) {
+				var err error
+				mf, err = gonnx.NewModelFromFile(path)
+				return nil, err
+			})
+			c.Eval(2)
+			c.Count("loader:NewModelFromFile(path rewritten with other bytes of the same size)", 1)
+			switch {
+			case of.Kind == mon.Panic:
+				c.Violation("load:panic", "NewModelFromFile panicked on the rewritten file: %s", of.Describe())
+			case ob.Kind != mon.Panic && (of.Kind == mon.Error) != (ob.Kind == mon.Error):
+				c.Violation("load:loaders-disagree", "after the file was rewritten with other bytes of the same size NewModelFromFile gives %v, NewModelFromBytes gives %v for those bytes", of.Err, ob.Err)
+			case of.Kind == mon.Value && ob.Kind == mon.Value && fpOf(mf) != fpOf(mb):
+				c.Violation("load:loaders-disagree", "after the file was rewritten with other bytes of the same size the model loaded from the path holds other weights than the model loaded from those bytes")
+			}
+		}
+	}
 	var buf bytes.Buffer
 	zw := zip.NewWriter(&buf)
 	w, err := zw.Create("model.onnx")
@@ -523,6 +566,35 @@ func c18OtherLoaders(c *Ctx, b []byte, ref mon.Outcome) {
 			c.Violation("load:panic", "NewModelFromZipFile panicked on an entry that declares %d uncompressed bytes: %s", declared, o.Describe())
 		} else if o.Kind != mon.Error && m == nil {
 			c.Violation("load:nil-model-without-error", "NewModelFromZipFile: nil model and nil error")
+		}
+	}
+	// an entry whose bytes no longer match the checksum the archive recorded for it (one bit of a
+	// stored entry flipped): the archive says the data is damaged, the loader must not hand out a model
+	if len(b) > 8 {
+		damaged := append([]byte{}, b...)
+		damaged[len(damaged)-1-c.R.Intn(len(damaged)/4+1)] ^= byte(1 << uint(c.R.Intn(8)))
+		var lb bytes.Buffer
+		lw := zip.NewWriter(&lb)
+		if fw, err := lw.CreateRaw(&zip.FileHeader{Name: "model.onnx", Method: zip.Store, CompressedSize64: uint64(len(b)), UncompressedSize64: uint64(len(b)), CRC32: crc32.ChecksumIEEE(b)}); err == nil {
+			_, _ = fw.Write(damaged)
+			if lw.Close() == nil {
+				if lr, err := zip.NewReader(bytes.NewReader(lb.Bytes()), int64(lb.Len())); err == nil && len(lr.File) == 1 {
+					var m *gonnx.Model
+					o := mon.Capture(nil, func() ([]tensor.Tensor, error) {
+						var err error
+						m, err = gonnx.NewModelFromZipFile(lr.File[0])
+						return nil, err
+					})
+					c.Eval(1)
+					c.Count("loader:NewModelFromZipFile(entry with a checksum mismatch)", 1)
+					switch {
+					case o.Kind == mon.Panic:
+						c.Violation("load:panic", "NewModelFromZipFile panicked on an entry with a checksum mismatch: %s", o.Describe())
+					case o.Kind != mon.Error:
+						c.Violation("load:damaged-zip-entry-loaded", "NewModelFromZipFile returned a model (nil: %v) for an entry whose bytes do not match the recorded CRC-32", m == nil)
+					}
+				}
+			}
 		}
 	}
 	// entries that cannot even be opened: a compression method archive/zip does not know, a
